@@ -120,6 +120,40 @@ def _z3_check(text, timeout_ms, want_model, seed=0):
     return out
 
 
+def _has_quant(t):
+    stack = [t]
+    seen = set()
+    while stack:
+        x = stack.pop()
+        if x.get_id() in seen:
+            continue
+        seen.add(x.get_id())
+        if z3.is_quantifier(x):
+            return True
+        if z3.is_app(x):
+            stack.extend(x.children())
+    return False
+
+
+def _relaxed_check(text, timeout_ms, want_model):
+    t0 = time.time()
+    try:
+        asserts = z3.parse_smt2_string(text)
+        s = z3.Solver()
+        s.set('timeout', timeout_ms)
+        for a in asserts:
+            if not _has_quant(a):
+                s.add(a)
+        r = s.check()
+        out = {'status': str(r), 'time': time.time() - t0, 'solver': 'z3-relaxed(quantifier-free part)'}
+        if r == z3.sat and want_model:
+            m = s.model()
+            out['model'] = {d.name(): _decode(m, d()) for d in m.decls() if d.arity() == 0}
+        return out
+    except Exception as ex:   # noqa
+        return {'status': 'unknown', 'time': time.time() - t0, 'solver': 'z3-relaxed', 'reason': str(ex)[:200]}
+
+
 def _cvc5_check(text, timeout_ms):
     import cvc5
     t0 = time.time()
@@ -169,6 +203,13 @@ def _work(job):
             status = 'sat'
         elif status != 'unknown' and r3['status'] != 'unknown' and r3['status'] != status:
             status = 'disagree'
+    if status == 'unknown':
+        # counterexample mode: a model of the quantifier-free part is only a CANDIDATE (status 'sat?');
+        # it is believed only after native replay on the real code (cli)
+        r4 = _relaxed_check(text, 20000, want_model)
+        res['runs'].append({k: v for k, v in r4.items() if k != 'model'})
+        if r4['status'] == 'sat':
+            status, model = 'sat?', r4.get('model')
     res['status'] = status
     res['model'] = model
     res['time'] = sum(x['time'] for x in res['runs'])
